@@ -283,11 +283,17 @@ def builtin_scripts(n: int, rng: random.Random, *, extreme: bool = True, saving:
         cut = rng.randint(1, nb - 1)
         ops = [["call", cut]] + ([["restore"]] if restore else []) + [["call", nb - cut]]
         vals = [6, 3, -20, 0, 17, 4, -6]
+        picky = False
         if extreme:
-            vals += [-900001, 900001, 900002, 900003] + ([] if any("Gaussian" in c or "Forest" in c or "CORS" in c for c, _ in lu) else [900004])
+            # (an infinite loss makes the surrogates refuse the history: a native sampler fault, recorded like an injected one)
+            picky = any("Gaussian" in c or "Forest" in c or "CORS" in c for c, _ in lu)
+            vals += [-900001, 900001, 900002, 900003] + ([] if picky and i % 2 else [900004])
         seq = [rng.choice(vals) for _ in range(40)]
         if extreme:
-            seq[rng.randrange(0, 3)] = 900002      # an early float32-overflowing loss, seen by every later sampler
+            at = rng.randrange(0, 3)
+            seq[at] = 900002      # an early float32-overflowing loss, seen by every later sampler
+            if picky and i % 2 == 0:
+                seq[(at + 1) % 3] = 900004      # ... and an early infinite one where a surrogate follows
         out.append({"cfg": {"lineup": lineup, "alts": [], "kind": "rr", "E": rng.choice([1, 2]), "convon": False, "verbose": False,
                             "saving": saving or restore, "seed": rng.randrange(1, 10**6), "njobs": 1, "prec": 3},
                     "ops": ops, "loss": {"seq": seq, "default": 6}, "faults": [], "agent": [0], "tlc_ops": ["builtin", lu, ops]})
